@@ -44,6 +44,14 @@ EP == [
   cgne_compute |-> {"tall"},
   tensor_unfold |-> {"order3", "quat", "option"},
   tensor_fold |-> {"coupled", "option"},
+  tensor_unfold_mode0 |-> {"order3", "quat", "option"},
+  tensor_unfold_mode2 |-> {"order3", "quat", "option"},
+  tensor_fold_mode0 |-> {"coupled", "option"},
+  tensor_fold_mode2 |-> {"coupled", "option"},
+  quaternion_modulus |-> {"quat"},
+  quaternion_triu |-> {"quat"},
+  quaternion_tril |-> {"quat"},
+  normQsparse |-> {"option"},
   apply_blur_fft |-> {"option"},
   qslst_restore_fft |-> {"option"},
   qslst_restore_matrix |-> {"coupled"},
